@@ -337,8 +337,16 @@ func rollbackKey(db *NoKV.DB, reader *Reader, key []byte, startTs uint64) *pb.Ke
 		}
 		return nil
 	}
-	if err := db.DeleteVersionedEntry(kv.CFLock, key, lockColumnTs); err != nil && err != utils.ErrKeyNotFound {
+	// Only remove the lock if it belongs to the transaction being rolled back:
+	// the key may meanwhile be locked by another transaction.
+	lock, err := reader.GetLock(key)
+	if err != nil {
 		return keyErrorRetryable(err)
+	}
+	if lock != nil && lock.Ts == startTs {
+		if err := db.DeleteVersionedEntry(kv.CFLock, key, lockColumnTs); err != nil && err != utils.ErrKeyNotFound {
+			return keyErrorRetryable(err)
+		}
 	}
 	if err := db.DeleteVersionedEntry(kv.CFDefault, key, startTs); err != nil && err != utils.ErrKeyNotFound {
 		return keyErrorRetryable(err)
